@@ -38,6 +38,7 @@
 #include <sys/types.h>
 #include <sys/stat.h>
 #include <unistd.h>
+#include <fcntl.h>
 #include <cstdlib>
 #include <cstring>
 
@@ -48,6 +49,34 @@ using namespace std;
 // #include "valgrind/memcheck.h"
 
 int FunctionCompiler::s_function_counter = 0;
+
+#ifdef KAUZLARI_SYMPLER_VERIF
+/* verification hook: scheduling points of the compile protocol. Active only if the
+   environment names two FIFOs; the process announces the point it has reached and
+   blocks until the external scheduler lets it go on. */
+static void verif_sched(const char *point)
+{
+  static int fd_ready = -2, fd_go = -2;
+  if (fd_ready == -2) {
+    const char *r = std::getenv("VERIF_SCHED_READY");
+    const char *g = std::getenv("VERIF_SCHED_GO");
+    if (r && g) {
+      fd_ready = ::open(r, O_WRONLY);
+      fd_go = ::open(g, O_RDONLY);
+    } else {
+      fd_ready = fd_go = -1;
+    }
+  }
+  if (fd_ready < 0 || fd_go < 0) return;
+  std::string msg = std::string(point) + "\n";
+  if (::write(fd_ready, msg.c_str(), msg.size()) < 0) return;
+  char c;
+  if (::read(fd_go, &c, 1) < 0) return;
+}
+#define VERIF_SCHED(p) verif_sched(p)
+#else
+#define VERIF_SCHED(p)
+#endif
 
 
 // bool fexists(const char *filename)
@@ -121,17 +150,21 @@ s << pTemp << "/" << C_FC_PREFIX << getpid() << "_" << s_function_counter;
 
   s_function_counter++;
   struct stat dummy_stat;
+  VERIF_SCHED("probe");
   while /*(fexists((s.str()+ext).c_str()) || fexists((s.str()+".c").c_str()))*/ 
   (stat((s.str()+ext).c_str(), &dummy_stat) == 0 || stat((s.str()+".c").c_str(), &dummy_stat) == 0) {
     s.seekp(0);
     s << pTemp << "/" << C_FC_PREFIX << getpid() << "_" << s_function_counter;
     s_function_counter++;
     MSG_DEBUG("FunctionCompiler::compile", "counter for existing source files in " << pTemp <<  ":" << s_function_counter);
+    VERIF_SCHED("probe");
   }
 
   m_so_filename = s.str()+ext;
 
+  VERIF_SCHED("openC");
   f.open((s.str()+".c").c_str());
+  VERIF_SCHED("writeC");
   f << "#include <math.h>" << endl;
   f << "#include <stdlib.h>" << endl;
   f << "void " << C_FC_FN_NAME << "(" << m_header << ")" << endl;
@@ -189,6 +222,7 @@ s << pTemp << "/" << C_FC_PREFIX << getpid() << "_" << s_function_counter;
   f.close();
 
   /* Fixme!!! Check for installed compilers, temp directory, etc... */
+  VERIF_SCHED("gcc");
 #ifdef __APPLE__
   r = system
     (("gcc -O3 -dynamiclib -fPIC -nostartfiles -o " + m_so_filename + " " + s.str() + ".c -lm").c_str());
@@ -197,6 +231,7 @@ s << pTemp << "/" << C_FC_PREFIX << getpid() << "_" << s_function_counter;
     (("gcc -O3 -shared -fPIC -nostartfiles -o " + m_so_filename + " " + s.str() + ".c -lm").c_str());
 #endif
 
+  VERIF_SCHED("rmC");
   remove((s.str() + ".c").c_str());
 
   return r == 0;
@@ -223,6 +258,7 @@ void FunctionCompiler::setParserAndCompile(FunctionParser *parser)
     // initialisation, we can probably afford the small performance loss (Of course 
     // this is only true if this lib isn't used somewhere else, which I currently 
     // don't know). On the other hand, the error does not seem to have any side effect. 
+    VERIF_SCHED("dlopen");
     m_handle = dlopen(m_so_filename.c_str(), RTLD_NOW);
     
 //    MSG_DEBUG("FunctionCompiler::setParserAndCompile", "BEFORE handle-if, m_handle = " << m_handle);
@@ -244,7 +280,9 @@ void FunctionCompiler::setParserAndCompile(FunctionParser *parser)
     
 //     MSG_DEBUG("FunctionCompiler::setParserAndCompile", "BEFORE remove .so");
 
+    VERIF_SCHED("rmSo");
     remove(m_so_filename.c_str());
+    VERIF_SCHED("end");
 //     MSG_DEBUG("FunctionCompiler::setParserAndCompile", "AFTER remove .so");
   
   } else
